@@ -30,6 +30,7 @@ type artefacts struct {
 	Error    string
 	Graph    string
 	Retains  string
+	Strict   string // messages at the strictest enforcement level, stage code looked up
 }
 
 func digest(s string) string {
@@ -63,6 +64,7 @@ func produceWith(dir string, c *detCase, use *syntax.Parser) artefacts {
 		a.Error = strings.ReplaceAll(err.Error(), dir, "$DIR")
 		a.Format = strings.ReplaceAll(a.Format, dir, "$DIR")
 		a.Combined = strings.ReplaceAll(a.Combined, dir, "$DIR")
+		a.Strict = strictErrors(dir, c)
 		return a
 	}
 	if ast != nil {
@@ -86,11 +88,27 @@ func produceWith(dir string, c *detCase, use *syntax.Parser) artefacts {
 			a.Graph = string(b)
 		}
 	}
+	a.Strict = strictErrors(dir, c)
 	// the scratch directory differs between processes
 	a.Error = strings.ReplaceAll(a.Error, dir, "$DIR")
 	a.Graph = strings.ReplaceAll(a.Graph, dir, "$DIR")
 	a.Format = strings.ReplaceAll(a.Format, dir, "$DIR")
 	return a
+}
+
+// strictErrors: what the compiler says at the strictest enforcement level (what is a warning
+// otherwise is an error there) with the stage code looked up in the directories of the sources
+// (none of it exists: every stage yields a message that lists where it was searched).
+func strictErrors(dir string, c *detCase) string {
+	old := syntax.GetEnforcementLevel()
+	syntax.SetEnforcementLevel(syntax.EnforceError)
+	defer syntax.SetEnforcementLevel(old)
+	var p syntax.Parser
+	_, _, _, err := p.ParseSourceBytes([]byte(c.Files[c.Top]), dir+"/"+c.Top, []string{dir}, true)
+	if err == nil {
+		return ""
+	}
+	return strings.ReplaceAll(err.Error(), dir, "$DIR")
 }
 
 type Violation struct {
@@ -152,7 +170,8 @@ func Run(args []string) int {
 		for r := 1; r < R; r++ {
 			a := produce(dir, &c)
 			for _, x := range [][3]string{{"formatted text", first.Format, a.Format}, {"combined source", first.Combined, a.Combined},
-				{"error messages", first.Error, a.Error}, {"call graph", first.Graph, a.Graph}, {"retain order", first.Retains, a.Retains}} {
+				{"error messages", first.Error, a.Error}, {"call graph", first.Graph, a.Graph}, {"retain order", first.Retains, a.Retains},
+				{"messages at the strictest level with stage code looked up", first.Strict, a.Strict}} {
 				if x[1] != x[2] {
 					viols = append(viols, Violation{c.Id, "differs-between-repetitions: " + x[0], diffAt(x[1], x[2]), c.Files[c.Top]})
 				}
@@ -175,7 +194,7 @@ func Run(args []string) int {
 			}
 		}
 		digests[c.Id] = map[string]string{"format": digest(first.Format), "combined": digest(first.Combined),
-			"error": digest(first.Error), "graph": digest(first.Graph), "retains": digest(first.Retains),
+			"error": digest(first.Error), "graph": digest(first.Graph), "retains": digest(first.Retains), "strict": digest(first.Strict),
 			"error_text": first.Error}
 	}
 	// one violation per (case, kind)
